@@ -1296,6 +1296,11 @@ def run_oracle(ctx, call, case, key=None, nontrivial=True):
         r = ORACLES[call](case)
     except MemoryError:
         raise core.Infra('out of memory in oracle ' + call)
+    except Exception as e:
+        # an exception that escapes an oracle was raised (directly or through what the library handed back)
+        # on an input the property covers: a failing input, never an infrastructure error
+        import traceback
+        r = ('exception:%s:escaped' % type(e).__name__, traceback.format_exc()[-600:])
     if r is not None:
         ctx.fail(call, r[0], case, r[1])
         ctx.branch('oracle-fail:' + call)
@@ -1305,7 +1310,10 @@ def run_oracle(ctx, call, case, key=None, nontrivial=True):
 
 
 def replay(ctx, rep):
-    return ORACLES[rep['call']](rep['case']) is not None
+    try:
+        return ORACLES[rep['call']](rep['case']) is not None
+    except Exception:
+        return True
 
 
 # ------------------------------------------------------------------ generators
@@ -2264,8 +2272,7 @@ def robustness2_campaign(ctx, robust2, n):
     for i in range(n):
         cfg = small_cfg(ctx.rng, L=ctx.rng.choice([1, 3, 8]), shape=shapes[i % len(shapes)],
                         shape0=ctx.rng.choice([None, 4, [1, 2], []]),
-                        ops=[[ctx.rng.choice('gs'), ctx.rng.choice([None, 1, 7, {'form': 'kw', 'a': 3}])]
-                             if False else ['g', ctx.rng.choice([None, 1, 7, {'form': 'kw', 'a': 3}])]
+                        ops=[['g', ctx.rng.choice([None, 1, 7, {'form': 'kw', 'a': 3}])]
                              for _ in range(ctx.rng.randint(1, 4))] + [['s', 5], ['g', 2]])
         run_oracle(ctx, 'JakesSampleGenerator.ctor_vs_setter', cfg)
         ctx.branch('oracle:R8-ctor-vs-setter')
@@ -2397,6 +2404,12 @@ def check(ctx):
         if not ctx.broken:
             raise
         ctx.notes.append('correspondence skipped: %s' % e)
+        ctx.required_branches = []
+    except Exception:
+        # the harness tripped over something the library returned: the tie is broken (exit 1 after the
+        # failing-input search), never exit 2
+        import traceback
+        ctx.tie_broken('correspondence', 'history.harness-exception', traceback.format_exc()[-1500:])
         ctx.required_branches = []
     reference_selfcheck(ctx, 20 if quick else 500)
     if quick:
